@@ -274,34 +274,44 @@ theorem backends_interchangeable {s1 : Sqlite.St D} {s2 : Memory.St D} {s3 : Pee
   ⟨e1 ▸ history_refines_sqlite h1 ops a1, e2 ▸ history_refines_memory h2 ops a2,
     e3 ▸ history_refines_peewee h3 ops a3⟩
 
-/-- Where the reference model leaves no choice (`Op.Det`: every operation except id-less inserts
-    and replace-last) the two SQL backends end in EQUAL views (metadata and events of every
-    bucket) -/
+/-- Where the reference model leaves no choice before any step (`AdmissibleDet`: no id-less
+    inserts, and replace-last only on buckets whose newest events all have one id, i.e. no tie
+    among equal timestamps; by `admissibleDet_of_det` in particular every admissible history of
+    `Op.Det` operations) the two SQL backends end in EQUAL views: metadata and events, with ids, of
+    every bucket -/
 theorem backends_equal_sqlite_peewee {s1 : Sqlite.St D} {s3 : Peewee.St D}
     (h1 : Sqlite.Inv s1) (h3 : Peewee.Inv s3) (e : Sqlite.view s1 = Peewee.view s3)
-    (ops : List (Op D)) (hd : ∀ op ∈ ops, op.Det)
-    (a1 : Admissible Sqlite.view Sqlite.step .sqlite s1 ops)
+    (ops : List (Op D))
+    (a1 : AdmissibleDet Sqlite.view Sqlite.step .sqlite s1 ops)
     (a3 : Admissible Peewee.view Peewee.step .peewee s3 ops) :
-    Sqlite.view (Sqlite.run s1 ops) = Peewee.view (Peewee.run s3 ops) := by
-  have r1 := history_refines_sqlite h1 ops a1
-  rw [e] at r1
-  exact SpecRun.det_sql hd r1 (history_refines_peewee h3 ops a3)
+    Sqlite.view (Sqlite.run s1 ops) = Peewee.view (Peewee.run s3 ops) :=
+  lockstep_eq Sqlite.view Sqlite.step Sqlite.Inv Peewee.view Peewee.step Peewee.Inv .sqlite .peewee
+    (fun _ _ _ h => SpecStep.peewee_iff_sqlite.mp h)
+    (fun _ op h => Sqlite.inv_step h op) (fun _ op h => Peewee.inv_step h op)
+    (fun _ op h hp => Sqlite.refines h op hp) (fun _ op h hp => Peewee.refines h op hp)
+    ops s1 s3 h1 h3 e a1 a3
 
-/-- Where the reference model leaves no choice, all three backends end with EQUAL event contents
-    in every bucket (the memory backend's metadata may differ by its name / truthiness
-    conventions, which is C05's subject) -/
+/-- Under the same condition all three backends end with EQUAL event contents (ids, instants,
+    durations, data, order) in every bucket; the memory backend's metadata may differ by its
+    name / truthiness conventions, which is C05's subject -/
 theorem backends_equal_events {s1 : Sqlite.St D} {s2 : Memory.St D} {s3 : Peewee.St D}
     (h1 : Sqlite.Inv s1) (h2 : Memory.Inv s2) (h3 : Peewee.Inv s3)
     (e12 : evView (Sqlite.view s1) = evView (Memory.view s2))
-    (e23 : evView (Memory.view s2) = evView (Peewee.view s3))
-    (ops : List (Op D)) (hd : ∀ op ∈ ops, op.Det)
-    (a1 : Admissible Sqlite.view Sqlite.step .sqlite s1 ops)
+    (e13 : evView (Sqlite.view s1) = evView (Peewee.view s3))
+    (ops : List (Op D))
+    (a1 : AdmissibleDet Sqlite.view Sqlite.step .sqlite s1 ops)
     (a2 : Admissible Memory.view Memory.step .memory s2 ops)
     (a3 : Admissible Peewee.view Peewee.step .peewee s3 ops) :
     evView (Sqlite.view (Sqlite.run s1 ops)) = evView (Memory.view (Memory.run s2 ops)) ∧
-    evView (Memory.view (Memory.run s2 ops)) = evView (Peewee.view (Peewee.run s3 ops)) :=
-  ⟨SpecRun.det_events hd e12 (history_refines_sqlite h1 ops a1) (history_refines_memory h2 ops a2),
-   SpecRun.det_events hd e23 (history_refines_memory h2 ops a2) (history_refines_peewee h3 ops a3)⟩
+    evView (Sqlite.view (Sqlite.run s1 ops)) = evView (Peewee.view (Peewee.run s3 ops)) :=
+  ⟨lockstep_events Sqlite.view Sqlite.step Sqlite.Inv Memory.view Memory.step Memory.Inv
+      .sqlite .memory (fun _ op h => Sqlite.inv_step h op) (fun _ op h => Memory.inv_step h op)
+      (fun _ op h hp => Sqlite.refines h op hp) (fun _ op h hp => Memory.refines h op hp)
+      ops s1 s2 h1 h2 e12 a1 a2,
+   lockstep_events Sqlite.view Sqlite.step Sqlite.Inv Peewee.view Peewee.step Peewee.Inv
+      .sqlite .peewee (fun _ op h => Sqlite.inv_step h op) (fun _ op h => Peewee.inv_step h op)
+      (fun _ op h hp => Sqlite.refines h op hp) (fun _ op h hp => Peewee.refines h op hp)
+      ops s1 s3 h1 h3 e13 a1 a3⟩
 
 /-! ## non-vacuity: admissible histories on concrete two-bucket states (coinciding instants,
 interleaved ids), exercising every kind of operation -/
@@ -338,6 +348,21 @@ def exOpsMemory : List (Op Nat) :=
 
 example : Admissible Memory.view Memory.step .memory Memory.exSt exOpsMemory :=
   ⟨⟨_, _, rfl, by decide, fun h => by cases h⟩, ⟨rfl, rfl⟩, rfl, rfl, trivial⟩
+
+/-- a history that leaves the reference model no choice: replace-last on a bucket with one newest
+    event, delete, upsert -/
+example : AdmissibleDet Sqlite.view Sqlite.step .sqlite Sqlite.exS
+    [.replaceLast "b" none Sqlite.exEv, .delete "a" 1,
+     .insertMany "a" [{ Sqlite.exEv with id := some 3 }]] := by
+  refine ⟨⟨_, _, rfl, by decide, fun h => by cases h⟩, ?_, rfl, trivial, ⟨rfl, by decide⟩,
+    fun e he => by rw [List.mem_singleton.mp he]; rfl, trivial⟩
+  intro m es t t' hv ht ht'
+  injection hv with hv
+  injection hv with _ hes
+  subst hes
+  have e1 := List.mem_singleton.mp ht.1
+  have e2 := List.mem_singleton.mp ht'.1
+  rw [e1, e2]
 
 example := replaceLast_hits_limit1_sqlite Sqlite.exS_inv (b := "a") rfl (by decide) none Sqlite.exEv
 example := delete_exact_sqlite Sqlite.exS_inv (b := "a") rfl 3
